@@ -274,6 +274,38 @@ pub struct AnimBoneAnimation {
     pub scaling: Option<AnimScaling>,
 }
 
+/// Read `count` elements of `elem_size` bytes each.
+///
+/// The raw bytes are read first and the buffer only grows with what the reader really
+/// delivers, so a count that the file cannot back up ends in an error instead of a
+/// huge up-front allocation.
+fn read_elements<R: Read, T>(
+    reader: &mut R,
+    count: u32,
+    elem_size: usize,
+    parse: impl Fn(&mut &[u8]) -> Result<T>,
+) -> Result<Vec<T>> {
+    let byte_len = count as u64 * elem_size as u64;
+    let mut bytes = Vec::new();
+    reader.by_ref().take(byte_len).read_to_end(&mut bytes)?;
+    if (bytes.len() as u64) < byte_len {
+        return Err(M2Error::Io(std::io::Error::new(
+            std::io::ErrorKind::UnexpectedEof,
+            format!(
+                "expected {count} elements of {elem_size} bytes, only {} bytes available",
+                bytes.len()
+            ),
+        )));
+    }
+
+    let mut cursor = &bytes[..];
+    let mut elements = Vec::with_capacity(count as usize);
+    for _ in 0..count {
+        elements.push(parse(&mut cursor)?);
+    }
+    Ok(elements)
+}
+
 /// Animation data for a section
 #[derive(Debug, Clone)]
 pub struct AnimSection {
@@ -342,15 +374,10 @@ impl AnimSection {
                 let translation = if (flags & 0x1) != 0 {
                     let timestamp_count = reader.read_u32_le()?;
 
-                    let mut timestamps = Vec::with_capacity(timestamp_count as usize);
-                    for _ in 0..timestamp_count {
-                        timestamps.push(reader.read_u32_le()?);
-                    }
-
-                    let mut translations = Vec::with_capacity(timestamp_count as usize);
-                    for _ in 0..timestamp_count {
-                        translations.push(C3Vector::parse(reader)?);
-                    }
+                    let timestamps =
+                        read_elements(reader, timestamp_count, 4, |r| Ok(r.read_u32_le()?))?;
+                    let translations =
+                        read_elements(reader, timestamp_count, 12, |r| C3Vector::parse(r))?;
 
                     Some(AnimTranslation {
                         timestamps,
@@ -364,15 +391,10 @@ impl AnimSection {
                 let rotation = if (flags & 0x2) != 0 {
                     let timestamp_count = reader.read_u32_le()?;
 
-                    let mut timestamps = Vec::with_capacity(timestamp_count as usize);
-                    for _ in 0..timestamp_count {
-                        timestamps.push(reader.read_u32_le()?);
-                    }
-
-                    let mut rotations = Vec::with_capacity(timestamp_count as usize);
-                    for _ in 0..timestamp_count {
-                        rotations.push(Quaternion::parse(reader)?);
-                    }
+                    let timestamps =
+                        read_elements(reader, timestamp_count, 4, |r| Ok(r.read_u32_le()?))?;
+                    let rotations =
+                        read_elements(reader, timestamp_count, 16, |r| Quaternion::parse(r))?;
 
                     Some(AnimRotation {
                         timestamps,
@@ -386,15 +408,10 @@ impl AnimSection {
                 let scaling = if (flags & 0x4) != 0 {
                     let timestamp_count = reader.read_u32_le()?;
 
-                    let mut timestamps = Vec::with_capacity(timestamp_count as usize);
-                    for _ in 0..timestamp_count {
-                        timestamps.push(reader.read_u32_le()?);
-                    }
-
-                    let mut scalings = Vec::with_capacity(timestamp_count as usize);
-                    for _ in 0..timestamp_count {
-                        scalings.push(C3Vector::parse(reader)?);
-                    }
+                    let timestamps =
+                        read_elements(reader, timestamp_count, 4, |r| Ok(r.read_u32_le()?))?;
+                    let scalings =
+                        read_elements(reader, timestamp_count, 12, |r| C3Vector::parse(r))?;
 
                     Some(AnimScaling {
                         timestamps,
@@ -796,10 +813,7 @@ impl AnimParser {
         // Parse animation entries
         reader.seek(SeekFrom::Start(header.anim_entry_offset as u64))?;
 
-        let mut entries = Vec::with_capacity(header.id_count as usize);
-        for _ in 0..header.id_count {
-            entries.push(AnimEntry::parse(reader)?);
-        }
+        let entries = read_elements(reader, header.id_count, 12, |r| AnimEntry::parse(r))?;
 
         // Parse animation sections
         let mut sections = Vec::with_capacity(entries.len());
